@@ -155,6 +155,10 @@ func joinName(e *fdent, p string) string {
 }
 
 func (m *Model) apply(o *Op) Exp {
+	if o.P == ".." || o.P2 == ".." {
+		// leaves the mount: refused (wazero: EPERM from fs.ValidPath), nothing changes
+		return fail(anyErr)
+	}
 	switch o.K {
 	case "path_open":
 		b, x := m.base(o.Fd)
